@@ -157,4 +157,5 @@ def run(ctx):
     streams.hist_corr(ctx, ents=R.ENTRIES)
     streams.fn_corr(ctx, ents=[e for e in R.ENTRIES if e.fn_model] + R.FN_ENTRIES)
     streams.presentation_variants(ctx, fn_ents=[e for e in R.ENTRIES if e.fn_model] + R.FN_ENTRIES, hist_ents=R.ENTRIES)
+    streams.wide_corr(ctx, [e for e in R.ENTRIES if e.fn_model] + R.FN_ENTRIES)
     class_vs_definition(ctx)
